@@ -3,7 +3,7 @@ import ast
 import itertools
 
 from ..absint import AList, AObj, Cond, EnumMember, Interp, Unknown
-from ..astutil import calls_in, call_name, norm, walk_no_nested
+from ..astutil import calls_in, call_name, norm, try_fold, walk_no_nested
 from ..cfg import cfg_of
 from ..core import AnalysisError
 from ..exprnorm import EQ, GT, LT, comparison, conjuncts
@@ -107,6 +107,11 @@ def run(repo, rep):
     rule_siblings(repo, rep, aa, gen, api)
     rule_roles(repo, rep, aa)
     rule_round4(repo, rep)
+    rule_hw_constants(repo, rep)
+    from .shared import binding_stem_lint
+
+    if binding_stem_lint(repo, rep, "C15-d", ["register_command_stream_generator", "register_command_stream_util", "architecture_allocator", "api", "high_level_command_to_npu_op"]) < 6:
+        raise AnalysisError("binding stems: too few feature-map named locals found")
 
 
 # ------------------------------------------------------------------ b, c
@@ -558,3 +563,60 @@ def rule_round4(repo, rep):
     from . import c10
 
     rep.run_borrowed(c10, {"C10-d": "C15-e"}, repo)
+
+
+HW_TABLE = {
+    # accelerator: (macs, cores, ofm_ublock (w,h,d), ifm_ublock (w,h,d), shram banks, granules [IFM8, IFM16, IFM8_EW, IFM16_EW, IFM32, Acc16, Acc32, Acc40], elem units)
+    "Accelerator.Ethos_U65_512": (256, 2, (2, 2, 8), (2, 2, 8), 48, [8, 8, 8, 8, 16, 8, 16, 20], 8),
+    "Accelerator.Ethos_U65_256": (256, 1, (2, 2, 8), (2, 2, 8), 48, [8, 8, 8, 8, 16, 8, 16, 20], 8),
+    "Accelerator.Ethos_U55_256": (256, 1, (2, 2, 8), (2, 2, 8), 48, [8, 8, 8, 8, 16, 8, 16, 20], 8),
+    "Accelerator.Ethos_U55_128": (128, 1, (2, 1, 8), (2, 1, 8), 24, [4, 4, 4, 4, 8, 4, 8, 12], 4),
+    "Accelerator.Ethos_U55_64": (64, 1, (1, 1, 8), (1, 1, 8), 16, [2, 2, 2, 2, 4, 4, 4, 8], 2),
+    "Accelerator.Ethos_U55_32": (32, 1, (1, 1, 4), (1, 1, 8), 16, [2, 2, 2, 2, 4, 4, 4, 4], 1),
+}
+HW_BLOCK_MAX = (64, 32, 128)  # (w, h, d)
+
+
+def rule_hw_constants(repo, rep):
+    """Hardware constants of the six accelerators (micro-blocks, bank counts, bank granules per element kind) and the maximum OFM
+    block: frozen from the Ethos-U55 / U65 technical reference values the tree was confirmed with. They are stated once in the
+    code, every sizing function agrees with whatever they say, and no test pins them: a changed entry silently mis-sizes every
+    SHRAM partition of that accelerator."""
+    from ..tables import namedtuple_fields
+
+    af = repo.mod("architecture_features")
+    cfgs = af.class_assigns("ArchitectureFeatures").get("accelerator_configs")
+    if not isinstance(cfgs, ast.Dict):
+        raise AnalysisError("accelerator_configs not recognised")
+    site = "ethosu/vela/architecture_features.py:ArchitectureFeatures.accelerator_configs"
+    seen = 0
+    for k, v in zip(cfgs.keys, cfgs.values):
+        key = str(norm(k))
+        if key not in HW_TABLE:
+            rep.info("C15-c", site, f"row {key}", "accelerator not in the frozen table (new hardware): not compared")
+            continue
+        if not (isinstance(v, ast.Call) and len(v.args) == 7):
+            raise AnalysisError(f"accelerator row {key} not recognised")
+        seen += 1
+
+        def blk(e):
+            return tuple(try_fold(a) for a in e.args) if isinstance(e, ast.Call) and call_name(e) == "Block" else None
+
+        got = (try_fold(v.args[0]), try_fold(v.args[1]), blk(v.args[2]), blk(v.args[3]), try_fold(v.args[4]), try_fold(v.args[5]), try_fold(v.args[6]))
+        want = HW_TABLE[key]
+        names = ("macs", "cores", "ofm_ublock", "ifm_ublock", "shram_banks", "shram_granules", "elem_units")
+        diff = [f"{nm}: {g} (hardware: {w})" for nm, g, w in zip(names, got, want) if (list(g) if isinstance(g, (list, tuple)) else g) != (list(w) if isinstance(w, (list, tuple)) else w)]
+        rep.check(not diff, "C15-c", site, f"{key}: micro-blocks, bank count, bank granules and element units are the hardware's", "; ".join(diff))
+    if seen < 6:
+        raise AnalysisError(f"accelerator rows: only {seen} of the six known accelerators found")
+    init = af.func("ArchitectureFeatures.__init__")
+    bm = [st for st in ast.walk(init) if isinstance(st, ast.Assign) and str(norm(st.targets[0])) == "self.ofm_block_max"]
+    if len(bm) != 1 or not (isinstance(bm[0].value, ast.Call) and call_name(bm[0].value) == "Block"):
+        raise AnalysisError("ofm_block_max not recognised")
+    call = bm[0].value
+    order = [a.arg for a in af.func("Block.__init__").args.args[1:4]]
+    vals = dict(zip(order, [try_fold(a) for a in call.args]))
+    vals.update({k_.arg: try_fold(k_.value) for k_ in call.keywords})
+    got = (vals.get("w"), vals.get("h"), vals.get("d"))
+    rep.check(got == HW_BLOCK_MAX, "C15-c", "ethosu/vela/architecture_features.py:ArchitectureFeatures.__init__", "the maximum OFM block is 64 wide, 32 high, 128 deep (Block takes w, h, d)",
+              f"ofm_block_max = (w, h, d) {got}: search, public query and validity check all read this value, so blocks beyond the hardware maximum are offered, selected and programmed")
